@@ -62,6 +62,10 @@ func (s *Server) cmdScan(msg *Message) (res resp.Value, err error) {
 			if count < 0 {
 				count = 0
 			}
+			if uint64(count) > sw.limit {
+				// a LIMIT caps COUNT exactly as it does on the filtered path
+				count = int(sw.limit)
+			}
 			sw.count = uint64(count)
 		} else {
 			limits := multiGlobParse(sw.globs, args.desc)
